@@ -8,7 +8,7 @@ from props import c01
 ID = "C10"
 LEVEL = "proof"
 THEOREMS = ["C10_wild_exact", "C10_nowild_exact", "C10_order_kept", "C10_wild_rejects",
-            "C10_composite_wild_position", "C10_composite_two_wild_rejected"]
+            "C10_composite_wild_position", "C10_composite_two_wild_rejected", "C10_composite_wild_exact", "C10_composite_written_order"]
 TRUSTED = c01.TRUSTED + ["object dump read back from the .save file (pickle) to observe seqs / base_seqs"]
 ASSUMPTIONS = c01.ASSUMPTIONS
 
